@@ -37,6 +37,10 @@ class _ConsistentSet(object):
             self._sequence = sorted((hash(e) for e in set_sequence))
 
 
+class _ConsistentFrozenSet(_ConsistentSet):
+    """Same as _ConsistentSet, for frozensets (which hash differently from sets)."""
+
+
 class _MyHash(object):
     """Class used to hash objects that won't normally pickle"""
 
@@ -153,6 +157,12 @@ class Hasher(Pickler):
         Pickler.save(self, _ConsistentSet(set_items))
 
     dispatch[type(set())] = save_set
+
+    def save_frozenset(self, set_items):
+        # forces order of items in frozenset to ensure consistent hash
+        Pickler.save(self, _ConsistentFrozenSet(set_items))
+
+    dispatch[type(frozenset())] = save_frozenset
 
 
 class NumpyHasher(Hasher):
